@@ -63,6 +63,13 @@ class Ctx:
 
     # ---- proof and correspondence ----
     def prove(self):
+        # translator-tied part of the model: regenerate coq/gen from /repo/src as it is now
+        try:
+            from ..translate import gen
+            self.notes["translated"] = {k: {kk: vv for kk, vv in v.items() if kk not in ("prim_table", "files")}
+                                        for k, v in gen.regenerate().items()}
+        except BaseException as e:      # a source the translator cannot read breaks the proof obligation, not the run
+            self.notes["translator_error"] = repr(e)
         ok, log = coqrun.ensure_built()
         if not ok:
             self.proof = dict(ok=False, theorems=[], closed=0, prints=0, axioms=[], forbidden=[], log=log,
